@@ -24,7 +24,7 @@ def main():
         sys.exit(0 if rep is False else 3)
     seed = int(os.environ.get('VERIF_SEED', '0') or 0)
     mod = importlib.import_module(f'props.{prop.lower()}')
-    only = set(a.only.split(',')) if a.only else None
+    only = a.only
     sys.exit(main_check(prop, a.tier, seed, mod, only=only))
 
 
